@@ -72,6 +72,46 @@ theorem source_of_outsOf {g : Graph} (hu : UniqueProducer g) {q v : Nat} (h : v 
     have := hu q qop v hq h
     exact ⟨qop, rfl, by simp [getSource, this, hq]⟩
 
+/-- A computable dependency of an operator of a valid plan is resolved when `prune_plan`
+reaches that operator. -/
+theorem computable_resolved_at {g : Graph} {plan ins outs : List Nat} (hu : UniqueProducer g)
+    (hok : PlanOK g true ins outs plan) {pre post : List Nat} {b d : Nat} {op : OpNode}
+    (hsplit : plan = pre ++ b :: post) (hop : getOp g b = some op) (hd : d ∈ opDeps g op)
+    (hc : Computable g ins d) : rContains g (pruneFold g pre ins).resolved d = true := by
+  induction hc generalizing pre post b op with
+  | supplied h => exact rContains_of_mem ((ins_sub_resolved g pre ins).1 _ h)
+  | const h => simp [rContains, h]
+  | @op v p pop hpop hdet hcap _ hv ih =>
+    obtain ⟨op', hop', hav⟩ := validIds_split hok.valid hsplit
+    rw [hop] at hop'
+    injection hop' with hop'
+    subst hop'
+    have hsrc : sourceOf g v = some p := hu p pop v hpop hv
+    rcases hav v hd with hav | ⟨_, hav⟩
+    · simp only [rContains, Bool.or_eq_true, List.contains_iff_mem, availAfter, List.mem_append,
+        List.mem_flatMap] at hav
+      rcases hav with (hav | ⟨q, hq, hvq⟩) | hav
+      · exact rContains_of_mem ((ins_sub_resolved g pre ins).1 _ hav)
+      · obtain ⟨qop, hqop, hs⟩ := source_of_outsOf hu hvq
+        have hqp : q = p := by
+          have := (getSource_spec hs).1
+          rw [hsrc] at this
+          injection this with this
+          exact this.symm
+        subst hqp
+        obtain ⟨pre1, mid, hpre⟩ := List.append_of_mem hq
+        have hsplit1 : plan = pre1 ++ q :: (mid ++ b :: post) := by rw [hsplit, hpre]; simp
+        have hres : depsResolved g (pruneFold g pre1 ins).resolved pop = true := by
+          rw [depsResolved_iff]
+          intro d' hd'
+          exact ih d' hd' hsplit1 hpop hd'
+        have hpr : prunedAt g (pruneFold g pre1 ins).resolved pop = false := by
+          simp [prunedAt, hdet, hres, hcap]
+        rw [hpre]
+        exact rContains_of_mem (kept_outputs_resolved hpop hpr v hv)
+      · simp [rContains, hav]
+    · rw [getSource_none_iff, hsrc] at hav; cases hav
+
 /-- A value is *demanded* by the part of the plan that `prune_plan` cuts away: it is a requested
 output, or a dependency of an operator that is pruned when the loop reaches it. -/
 def Demanded (g : Graph) (plan ins outs : List Nat) (id : Nat) : Prop :=
